@@ -16,6 +16,7 @@ import sys
 
 sys.path.insert(0, os.path.dirname(os.path.abspath(__file__)))
 from _util import exc_class, rng, TIER  # noqa: E402
+from _util import pool_map  # noqa: E402
 import c13_tree as T  # noqa: E402
 from c13_codec import where, bemin  # noqa: E402
 
@@ -598,9 +599,7 @@ def mutants(inp):
             add(typ + ".import_key", text.encode("latin-1"), None, **common)
             if "dek" in cls or "encrypted" in cls:
                 add(typ + ".import_key", text.encode("latin-1"), PW, **common)
-    with multiprocessing.Pool(16) as pool:
-        recs = pool.map(_run_job, jobs, chunksize=16)
-    return recs
+    return pool_map(_run_job, jobs, chunksize=16)
 
 
 # ------------------------------------------------------------------------------------------------ short arbitrary strings
@@ -632,8 +631,7 @@ def strings(inp):
         for pw in (None, PW):
             for first in [None] + inp["alphabet"]:
                 jobs.append((entry, pw, inp["alphabet"], inp["maxlen"], first))
-    with multiprocessing.Pool(16) as pool:
-        return pool.map(_strings_one, jobs, chunksize=1)
+    return pool_map(_strings_one, jobs, chunksize=1)
 
 
 def main():
